@@ -211,7 +211,7 @@ def flatten_fns():
              (r'^nano::indices_cmap_t$|tensor_t<nano::tensor_carray_storage_t, long, 1>', 'struct nv_ilist'),
              (r'^nano::mask_cmap_t$|data_cmap_t$|tensor_t<nano::tensor_carray_storage_t, unsigned char, 1>', 'struct nv_mask'),
              (r'^nano::tensor2d_map_t$|tensor_t<nano::tensor_marray_storage_t, double, 2>', 'struct nv_t2d'),
-             (r'^std::tuple<long, bool, unsigned char>$|^tuple<typename __decay_and_strip<long>::__type, typename __decay_and_strip< ?bool &>::__type, typename __decay_and_strip< ?unsigned char &>::__type>$', 'struct nv_tuple_i64_b_u8'),
+             (r'^std::tuple<long, bool, unsigned char>$|^tuple<typename __decay_and_strip< ?long ?&?>::__type, typename __decay_and_strip< ?bool &>::__type, typename __decay_and_strip< ?unsigned char &>::__type>$', 'struct nv_tuple_i64_b_u8'),
              (r'^Eigen::VectorBlock<(Eigen::ArrayWrapper<)?Eigen::Map<Eigen::Matrix<double, -1, 1, 0>, 0>>?, -1>$', 'struct nv_seg'),
              (r'^((Eigen::)?ArrayWrapper<)?Eigen::Map<Eigen::Matrix<double, -1, 1, 0>, 0>>?$', 'struct nv_seg'),
              (r'^\(lambda at .*elemwise_identity\.h:\d+:\d+\)$', 'struct nv_op')]
@@ -228,7 +228,7 @@ def flatten_fns():
     deref = Fn('dsiter_deref', GEN_TU, 'operator*', flt='nano::datasource_iterator_t',
                select=lambda d: '__decay_and_strip<const unsigned char &>' in d['type']['qualType'],
                self_struct='struct nv_dsiter', types=types, uf_float=False,
-               calls=[(r'^getbit\|', 'mask_getbit'), (r'^make_tuple\|.*\(long &&, const bool &, const unsigned char &\)', '(struct nv_tuple_i64_b_u8){ {0}, {1}, {2} }')] + ELEM,
+               calls=[(r'^getbit\|', 'mask_getbit'), (r'^make_tuple\|.*\((const )?long &&?, const bool &, const unsigned char &\)', '(struct nv_tuple_i64_b_u8){ {0}, {1}, {2} }')] + ELEM,
                members=[(r'^sample\|nano::base_datasource_iterator_t \*', 'iter_sample(&{self}->base)'),
                         (r'^index\|nano::base_datasource_iterator_t \*', 'iter_index(&{self}->base)')])
     op = Fn('sclass_op', GEN_TU, 'process', flt='nano::sclass_identity_t::process', lambda_index=0,
@@ -246,6 +246,52 @@ def flatten_fns():
                        (r'^setConstant\|Eigen::DenseBase<Eigen::Block<', 'nv_seg_fill'),
                        (r'^size\|Eigen::EigenBase<Eigen::Block<', '{*self}.n')])
     return [flat, deref, op] + fns
+
+SEL_H = 'specs/C08/select.h'
+
+
+def check_overload_hook(P, n):
+    """dataset_t::check is overloaded (feature index / sample list); member-call keys carry no argument types, so the
+    overload is picked here from the type of the argument"""
+    from cxx2c import strip_cv, qual
+    if n.get('kind') != 'CXXMemberCallExpr':
+        return None
+    me = n['inner'][0]
+    if me.get('kind') != 'MemberExpr' or me.get('name') != 'check' or 'dataset_t' not in qual(me['inner'][0]['type']):
+        return None
+    arg = n['inner'][1]
+    which = 'dataset_check_samples' if 'tensor_carray_storage_t, long, 1>' in strip_cv(qual(arg['type'])) else 'dataset_check_feature'
+    P.note(which + ' (overload of check)')
+    P.may_throw = True
+    P.pending_throw = True
+    return f'{which}({P.expr(me["inner"][0])}, {P.expr(arg)})'
+
+
+def select_fns(kind):
+    tu = 'src/dataset.cpp'
+    types = TYPES + [(r'^nano::datasource_t$', 'struct nv_datasource'),
+                     (r'^nano::rgenerator_t$|^std::unique_ptr<nano::generator_t', 'struct nv_rgen'),
+                     (r'^nano::(sclass|mclass|scalar|struct)_mem_t$|tensor_t<nano::tensor_vector_storage_t, (int|signed char|double), \d>', 'struct nv_buf'),
+                     (r'^nano::(sclass|mclass|scalar|struct)_c?map_t$|tensor_t<nano::tensor_[cm]array_storage_t, (int|signed char|double), \d>', 'struct nv_map'),
+                     (r'^nano::feature_t$', 'struct nv_feature')]
+    code = {'sclass': 0, 'mclass': 1, 'scalar': 2, 'struct': 3}[kind]
+    t2 = (r'^operator\(\)\|typename tbase::tconstref \(const nano::tensor_size_t, const int\) const\|.*tensor_vector_storage_t, long, 2>', '(*nv_t2i_at({&0}, {1}, {2}))')
+    common = dict(self_struct='struct nv_dataset', types=types, uf_float=False, hooks=[check_overload_hook, size_rank2_hook(tu)])
+    sel = Fn('dataset_select_' + kind, tu, 'select', flt='nano::dataset_t::',
+             select=lambda d: (lambda pt: len(pt) == 3 and pt[2] == f'nano::{kind}_mem_t &')(astload.param_types(d)),
+             calls=ELEM + [t2, (r'^handle_' + kind + r'\|void \(const nano::tensor_size_t, const nano::feature_t &\)', f'nv_handle_kind({{1}}, {code})!'),
+                           (r'^resize_and_map\|', 'nv_resize_and_map({&0}, {1})'),      # further dimensions do not matter here
+                           (r'^operator->\|std::unique_ptr<nano::generator_t>::pointer \(\) const', '{&0}'),
+                           (r'^ctor\|nano::tensor_t<nano::tensor_carray_storage_t, (int|signed char|double), \d>\|', '{0}')],
+             members=SIZE1 + [(r'^feature\|nano::dataset_t', 'nv_dataset_feature!'),
+                              (r'^byfeature\|nano::dataset_t', '(*dataset_byfeature({self}, {0}))!'),
+                              (r'^select\|nano::generator_t \*', 'nv_generator_select!')], **common)
+    chk = Fn('dataset_check_samples', tu, 'check', flt='nano::dataset_t::', select=lambda d: 'indices_cmap_t' in astload.param_types(d)[0],
+             members=[(r'^min\|nano::tensor_t<nano::tensor_carray_storage_t, long, 1>', 'nv_t1i_min_rec'),
+                      (r'^max\|nano::tensor_t<nano::tensor_carray_storage_t, long, 1>', 'nv_t1i_max_rec'),
+                      (r'^samples\|nano::datasource_t', 'datasource_samples')], **common)
+    _, chk_f, byf, feats, dss = dataset_fns()
+    return [sel, chk, dss, byf, chk_f, feats]
 
 
 def build(tier):
@@ -275,13 +321,39 @@ def build(tier):
     _, g5, _ = mask_fns()
     targets.append(Target('dataset_guarded_read', [chk_s, dss, g5] + list(iter_fns()), DS_H, enforce_none=True, harness=GUARDED_READ))
     targets.append(Target('flatten_sclass_u8', flatten_fns(), FLAT_H))
+    for kind in ('sclass', 'mclass', 'scalar', 'struct'):
+        targets.append(Target('dataset_select_' + kind, select_fns(kind), SEL_H, replace=['dataset_byfeature']))
     return {
         'targets': targets, 'vcs': [],
-        'decided': [],
-        'not_decided': [],
-        'assumptions': [],
+        'decided': [
+            'bit mask (mask.h): setbit(m,s) sets the bit of s, leaves the bit of every other sample unchanged (ghost index), writes only byte s/8, clears nothing; getbit reads byte s/8 < (samples+7)/8 only; layout-free round trip of the real setbit+getbit for every sample value; make_mask<1> allocates (samples+7)/8 bytes with every bit clear; optional(mask, samples) <=> some sample in [0, samples) has no value (both directions)',
+            'base_datasource_iterator_t: sample() = samples[index] / shuffled[samples[index]] with every read in bounds and the result in [0, N); operator++ / operator bool; the for(; it; ++it) protocol keeps 0 <= index <= size and never evaluates sample() at index == size',
+            'range guards: dataset_t::check(feature) throws iff the index is outside [0, features()); byfeature rejects an invalid index before indexing and returns m_generators[mapping(feature, 0)] in bounds; check(samples) returning normally => every listed index >= 0 [proved] and < samples() [REFUTED on the unchanged library: `>` instead of `>=`]',
+            'guarded read chain: real check(samples) + real iterator + real getbit: the sample handed to the storage readers is in [0, N) and every read is inside its buffer [REFUTED on the unchanged library for the index N]',
+            'dataset_t::select(samples, feature, buffer) x4: the reader (generator_t::select) is reached only after the sample guard ran on this very list without throwing and with a valid feature index, on the mapped generator / local feature, one row per listed sample; an invalid feature index throws and nothing is read',
+            'one-hot flatten (elemwise_generator_t<sclass_identity_t>::flatten, 8-bit labels) with the real operator*, iterator, getbit and label operator: every cell of the processed rows inside [column, column+colsize) is +1 / -1 by the documented C-1 column encoding or NaN when the value is missing, every other cell is untouched, every row / segment / one-hot index is inside the buffer'],
+        'not_decided': [
+            'agreement of the per-feature and flattened views for the other 11 feature kinds / storage widths, product and gradient generators, targets; the column-to-feature bookkeeping built by dataset_t::update() (its invariant is assumed at the queried row)',
+            'drop / shuffle / undo histories (generator_t state), the thread-parallel dataset_t::flatten / targets bodies',
+            'datasource_t::visit (range -> slice -> reshape arithmetic) and datasource_t::set',
+            'make_mask for rank > 1: the index of std::get<trank-1> is not visible in the AST dump of the instantiation',
+            'empty sample lists: Eigen minCoeff/maxCoeff of an empty vector are undefined (the stubs return an arbitrary value)',
+            'dataset_t::column2feature(column) has no range check at all (columns are not named by the property clause)'],
+        'assumptions': [
+            'indices.min() / indices.max() (Eigen minCoeff / maxCoeff): min <= a[g] and max >= a[g] at a ghost position g, arbitrary result for an empty list',
+            'tensor_t::operator()(i) on rank-1 maps is p[i] (bounds become CBMC pointer checks); tensor_t::operator()(i, j) on the rank-2 feature mapping is the row-major element p[i*cols+j] with its index precondition checked at each use (C16 proves nano::index)',
+            'tensor.size<k>() / size() return the k-th / only dimension; std::vector::operator[] is p[i] (bounds checked)',
+            'mask of a feature has (samples+7)/8 bytes (datasource_t::resize: m_storage_mask.resize(features, (samples + 7) / 8)); callers pass 0 <= sample < samples (datasource_t::set asserts it; for readers this is exactly what dataset_t::check(samples) must establish)',
+            'tensor_mem_t<uint8_t,1>(dims) allocates size(dims) elements; tensor.zero() sets every element to 0',
+            'dataset invariant from dataset_t::update(), used only at the queried row: m_feature_mapping has 5 columns and mapping(feature, 0) is a valid index into m_generators',
+            'the permutation m_shuffled_all_samples is empty or has samples() entries each in [0, samples()) (generator_t::shuffle: std::shuffle of arange)',
+            'flatten target: the listed samples are valid indices (what check(samples) must establish) -- every list read returns some index in [0, N); the flatten buffer is tracked at one ghost cell (the function never reads it); Eigen segment / setConstant / coefficient access have their documented meaning with their index preconditions checked at each use; dataset_t::flatten maps the buffer to samples.size() rows and hands the generator a column range inside it; generator_t::NaN is a NaN',
+            'select targets: dataset_t::feature(i) throws for an invalid i (as proved for byfeature) and otherwise returns an arbitrary descriptor; handle_<kind> throws unless the descriptor has that kind; resize_and_map returns a view with the requested leading dimension (further dimensions not modelled); generator_t::select may throw',
+            'exceptions are early returns with nv_thrown set; stubs called with a may-throw argument do nothing once nv_thrown is set',
+            'sizes are bounded (2^40 samples for the bit mask, 10^6 list entries / samples elsewhere, 10^5 features / generators) only to keep byte counts inside size_t and CBMC objects addressable'],
         'trusted': [],
     }
+_REPLAY = {}
 
 
 def replay(rp):
@@ -313,7 +385,9 @@ def replay(rp):
             cands.append((16, 16))
     if not cands:
         cands = [(16, 16), (13, 13)]
-    exe = replaylib.build_with_library('replay/C08_replay.cpp', 'C08_replay')
+    if 'exe' not in _REPLAY:      # one build per run, shared by the replays of both range-guard targets
+        _REPLAY['exe'] = replaylib.build_with_library('replay/C08_replay.cpp', 'C08_replay')
+    exe = _REPLAY['exe']
     for n, idx in dict.fromkeys(cands):
         rc, so, se = replaylib.run_driver(exe, [n, idx])
         out['runs'].append({'samples': n, 'index': idx, 'exit': rc, 'output': so.strip()[:2000]})
